@@ -488,6 +488,12 @@ PROBE_SNIPPETS = {
                    {"probemid.frugal": 'include "probefar.frugal"\ntypedef probefar.FarS MidT\n'
                                        "typedef list<probefar.FarU> MidL\n",
                     "probefar.frugal": "struct FarS { 1: i32 a }\nunion FarU { 1: i32 a }\n"}),
+    # the witness of theorem c11_classification_total_refuted: two different files included under
+    # the same name
+    "far_same_name": ('include "farinca.frugal"\ninclude "farincb.frugal"\nstruct ProbeFarR { 1: farinca.T f }\n',
+                      {"farinca.frugal": 'include "farsub/farincb.frugal"\ntypedef farincb.X T\n',
+                       "farsub/farincb.frugal": "struct X { 1: i32 a }\n",
+                       "farincb.frugal": "typedef i32 X\n"}),
 }
 
 
